@@ -20,9 +20,21 @@ def run(ctx):
     streams = list(gen.all_strings(ALPHA, maxlen))
     ctx.exhaustive_parts.append("all %d strings of length <= %d over %s" % (len(streams), maxlen, [hex(a) for a in ALPHA]))
     # preamble prefix + exhaustive short tails (exercises every framing branch deeper)
-    for pre in (b"\xb5\x62", b"\x24\x47", b"\xd3\x00", b"\xd3\x01"):
+    for pre in (b"\xb5\x62", b"\x24\x47", b"\xd3\x00", b"\xd3\x01", b"\xd3\x02", b"\xd3\x03", b"\xb5\x00", b"\x24\x01", b"\xd3\x04"):
         for t in gen.all_strings([0x00, 0x01, 0x02, 0x0a, 0xb5, 0xd3], 3 if ctx.quick() else 4):
             streams.append(pre + t)
+    # every second byte after each of the three first preamble bytes (the whole dispatch table), with tails long
+    # enough for any frame the dispatch may start
+    tails = [bytes(12), b"\x01\x00" + bytes(9) + b"\x0a", b"\xff" * 5]
+    for b1 in (0xb5, 0x24, 0xd3):
+        for b2 in range(256):
+            streams.append(bytes([b1, b2]) + tails[b2 % 3])
+    ctx.exhaustive_parts.append("all 3 x 256 two-byte headers (reader dispatch) with frame-length tails")
+    if not ctx.quick():
+        for b1 in range(256):
+            for b2 in range(256):
+                streams.append(bytes([b1, b2]) + tails[(b1 + b2) % 3])
+        ctx.exhaustive_parts.append("all 65536 two-byte prefixes")
     for _ in range(600 if ctx.quick() else 8000):
         streams.append(rl.garbage_stream(rng))
     for _ in range(150 if ctx.quick() else 1500):
@@ -32,21 +44,29 @@ def run(ctx):
     cases = []
     for i, s in enumerate(streams):
         if i % 4 == 0:
-            cfg = (rng.randrange(8), rng.randrange(2), rng.random() < 0.7)
+            cfg = (rng.randrange(8), rng.randrange(2), rng.random() < 0.7, rng.randrange(2))
+        elif i % 4 == 1:
+            cfg = (7, i % 2, False, 1)         # parsing off: the framing itself is what gets delivered
+        elif i % 4 == 2:
+            cfg = (7, i % 2, True, 0)          # no checksum/CRC validation
         else:
-            cfg = (7, i % 2, True)
-        cases.append({"stream": s, "pf": cfg[0], "qe": cfg[1], "parsing": cfg[2]})
+            cfg = (7, i % 2, True, 1)
+        cases.append({"stream": s, "pf": cfg[0], "qe": cfg[1], "parsing": cfg[2], "validate": cfg[3]})
+    # the dispatch table again with parsing off (every header, whatever its position in the loop above)
+    for b1 in (0xb5, 0x24, 0xd3):
+        for b2 in range(256):
+            cases.append({"stream": bytes([b1, b2]) + tails[b2 % 3], "pf": 7, "qe": 1, "parsing": False, "validate": 1})
     obs = rp.correspond_runs(ctx, cases, "READ")
     for c, o in zip(cases, obs):
         s = c["stream"]
         raws = [r for r, _ in o["items"]]
-        inp = {"op": "READ", "stream": s.hex(), "pf": c["pf"], "qe": c["qe"], "parsing": c["parsing"]}
+        inp = {"op": "READ", "stream": s.hex(), "pf": c["pf"], "qe": c["qe"], "parsing": c["parsing"], "validate": c.get("validate", 1)}
         if o["raised"] is not None:
             ctx.fail("raised-with-errors-not-raised", inp, "no exception", o["raised"])
             continue
         if not rp.is_slices(raws, s):
             ctx.fail("not-slices", inp, "in-order non-overlapping slices", [r.hex() for r in raws])
-        if any(r[:1] not in (b"\xb5", b"\x24", b"\xd3") for r in raws):
-            ctx.fail("no-preamble", inp, "each raw starts with b5/24/d3", [r.hex() for r in raws])
+        if any(not rl.is_preamble2(r) for r in raws):
+            ctx.fail("no-preamble", inp, "each raw starts with b5 62 / $+NMEA talker byte / d3 0[0-3]", [r.hex()[:40] for r in raws])
         if o["final"]:
             ctx.fail("bytes-left-unread", inp, "nothing left unread at end of iteration", o["final"].hex())
